@@ -22,7 +22,8 @@ def carriers():
             out.append(dict(name=name + ('~twin' if twin else ''), funs=[f], call=('call', 0, [arg] if arg else []), twin=twin))
     asg = lambda t: ('asg', t, L(1), '=')
     fam('direct', lambda t: [('expr', asg(t))])
-    fam('compound', lambda t: [('expr', ('asg', t, L(1), '+='))])
+    for opname, op in (('plus', '+='), ('minus', '-='), ('times', '*='), ('div', '/='), ('mod', '%='), ('or', '|='), ('and', '&='), ('xor', '^='), ('shl', '<<='), ('shr', '>>='), ('colon', ':=')):
+        fam('compound-' + opname, lambda t, op=op: [('expr', ('asg', t, L(1), op))])
     fam('postinc', lambda t: [('expr', ('inc', False, t, '++'))])
     fam('predec', lambda t: [('expr', ('inc', True, t, '--'))])
     fam('in-if', lambda t: [('if', L(1), ('expr', asg(t)))])
